@@ -391,7 +391,7 @@ def run(ctx):
         raw_lines = [t.encode('utf-8') + rng.choice([b'\r\n', b'\r\n', b'\n']) for t in lines]
         if not no_banner:
             raw_lines.append(g['line'].encode('utf-8') + rng.choice([b'\r\n', b'\r\n', b'\n']))
-        seg = rng.choice(['whole', 'lines', 'lines', 'midline'])
+        seg = rng.choice(['whole', 'lines', 'midline', 'midline', 'bytes'])
         if seg == 'whole' or not raw_lines:
             chunks = [b''.join(raw_lines) + tail]
         elif seg == 'lines':
@@ -401,11 +401,14 @@ def run(ctx):
                 if rng.random() < 0.5:
                     chunks.append(cur); cur = b''
             chunks.append(cur + tail)
-        else:
+        elif seg == 'bytes':      # one byte per recv()
+            data = b''.join(raw_lines) + tail
+            chunks = [data[j:j + 1] for j in range(len(data))]
+        else:                     # cut at arbitrary byte offsets (inside lines, inside CR LF, inside UTF-8 sequences)
             data = b''.join(raw_lines) + tail
             chunks = []
             while data:
-                k = rng.choice([1, 3, 7, 16, 40, len(data)]); chunks.append(data[:k]); data = data[k:]
+                k = rng.choice([1, 1, 2, 3, 7, 16, 40, rng.randrange(1, len(data) + 1), len(data)]); chunks.append(data[:k]); data = data[k:]
         chunks = [c for c in chunks if c]
         end = rng.choice(['close', 'timeout'])
         b, h, e = impl_get_banner(chunks, end)
@@ -415,6 +418,12 @@ def run(ctx):
                 dict(replay, impl=repr((obs(b), h, e))), ('stream', seg, b is None, min(len(h), 3), hdr_ctl))
         else:
             ctx.evaluations += 1
+        if len(chunks) > 1:
+            b1, h1, e1 = impl_get_banner([b''.join(chunks)], end)
+            ctx.evaluations += 1
+            if (obs(b1), h1) != (obs(b), h):
+                ctx.violation('line-split-across-segments', 'get_banner over %d segment(s) (%s) returns banner %s header %r, over the uncut stream banner %s header %r' % (
+                    len(chunks), seg, obs(b), h, obs(b1), h1), replay)
         if hdr_ctl:
             continue
         # oracle: the banner line is found after any number of other lines, which are the header text and nothing else is
@@ -435,13 +444,13 @@ def run(ctx):
                 key = 'software-token-looks-like-protocol'
             elif not no_banner and 'header' not in bad and split_by_space(sw_s, [sanitise(w) for w in g['words']]):
                 key = 'software-token-protocol-split-by-space'
-            elif seg == 'midline':
+            elif seg in ('midline', 'bytes'):
                 key = 'line-split-across-segments'
             else:
                 key = 'stream/%s/%s' % ('+'.join(bad), seg)
             ctx.violation(key, 'get_banner over %d segment(s) (%s) returns banner %s header %r; sent header lines %r and banner line %r' % (
                 len(chunks), seg, obs(b), h, want_h, None if no_banner else g['line']), replay)
-    samples.append({'op': 'get_banner', 'chunks': ['hello\\r\\nSSH-2.0-Open', 'SSH_8.9p1\\r\\n'], 'impl': repr(obs(impl_get_banner([b'hello\r\nSSH-2.0-Open', b'SSH_8.9p1\r\n'], 'close')[0]))})
+    samples.append({'op': 'get_banner', 'chunks': ['hello\\r\\nSSH-2.0-Open', 'SSH_8.9p1\\r\\n'], 'note': 'split line is reassembled since ddbb5b8', 'impl': repr(obs(impl_get_banner([b'hello\r\nSSH-2.0-Open', b'SSH_8.9p1\r\n'], 'close')[0]))})
     ctx.extra['op_histogram'] = hist
     ctx.extra['families_exercised'] = sorted('%s%s' % (a, '+patch' if p else '') for a, p in fam_seen)
     ctx.correspond('banner', IMPORTS, '', terms, lambda i: descs[i])
@@ -449,6 +458,6 @@ def run(ctx):
               'lines from the banner grammar SSH-<d>.<digits>-<token>[ <words>] (protocol 2.0/1.99/1.x/other incl. leading zeros and long minors; tokens: random printable, '
               'product strings, tokens that look like protocol tokens; comments with 1..7 space gaps; injected control/non-ASCII code points), '
               'mutated lines, multi-protocol prefixes, strings over a small alphabet, literal pieces; product strings of every recognised family at random versions/patches and near-miss prefixes; '
-              'random code point lists for the filter; streams of 0..6 header lines + banner + tail with CR LF / LF, cut whole / at line ends / mid-line, 7-bit streams also through the model. '
+              'random code point lists for the filter; streams of 0..6 header lines + banner + tail with CR LF / LF, cut whole / at line ends / at arbitrary byte offsets / one byte per recv(), each also compared with the uncut stream, 7-bit streams also through the model. '
               'The regex engine is not modelled: the hand-written recognisers are tied to `re` only by this differential run. '
               'non-trivial = distinct (op, class, outcome shape: software None/empty, comments present, flag, protocol; product, patch present; segmentation, headers)')
